@@ -475,10 +475,14 @@ func (c *Ctx) c07Flags() {
 						okT = false
 					}
 				default:
-					okT = false
+					// `Len() == 2` alone says the same where two results imply that the second is the error
+					lo, hi, isCmp := cmpInterval(t, isLenRes)
+					if !(isCmp && lo == 2 && hi == 2 && d.Implies(c.notExactly(isLenRes, 2), c.M(true, secondErr))) {
+						okT = false
+					}
 				}
 			}
-			r.Check("C07-5", key+":flag", c.InstrPos(ret), okT, "the converter's error flag must be Results().Len()==2 ∧ IsErrorType(Results().At(1).Type())")
+			r.Check("C07-5", key+":flag", c.InstrPos(ret), okT, "the converter's error flag must be Results().Len()==2 ∧ IsErrorType(Results().At(1).Type()), got "+c.O.Of(fv).String()+" under "+d.Describe(c.O))
 			r.Check("C07-5", key+":second-must-be-error", c.InstrPos(ret), d.Implies(c.notExactly(isLenRes, 2), c.M(true, secondErr)), "a two-result function whose second result is not an error is accepted as converter; reach: "+d.Describe(c.O))
 			r.Check("C07-5", key+":at-most-two", c.InstrPos(ret), d.Implies(c.atMost(isLenRes, 2)), "a function with more than two results is accepted as converter; reach: "+d.Describe(c.O))
 			r.Check("C07-5", key+":at-least-one", c.InstrPos(ret), d.Implies(c.atLeast(isLenRes, 1)), "a function without results is accepted as converter; reach: "+d.Describe(c.O))
